@@ -193,7 +193,17 @@ def run(repo, rep):
                             rep.ok("C09-b", f"ethosu/vela/{mname}.py:{q}", f"{norm(c)[:80]}", "deliberate: " + deliberate[(mname, q, norm(c))])
                             continue
                         rep.bad("C09-b", f"ethosu/vela/{mname}.py:{q}", f"{norm(c)[:80]}", "the arithmetic on float32 scales happens inside the widening call: the quotient is rounded to float32 first (relative error 2^-24 instead of 2^-31 against the reference, which divides in double)")
-    rep.floor("C09-b", 4)
+    # which rule applies is decided on the operator's TFLite kind (original_type): a 1x1 convolution rewritten to FullyConnected keeps CONV_2D's double product
+    ps_ = repo.mod("weight_compressor").func("_prepare_scale_and_bias")
+    sel = [n_ for n_ in ast.walk(ps_) if isinstance(n_, ast.If) and "Op.FullyConnected" in str(norm(n_.test))]
+    if len(sel) != 1:
+        raise AnalysisError("_prepare_scale_and_bias: selection of the float32-product rule not found")
+    from ..exprnorm import conjuncts as _cj
+
+    dis = [norm(v_) for v_ in (sel[0].test.values if isinstance(sel[0].test, ast.BoolOp) and isinstance(sel[0].test.op, ast.Or) else [sel[0].test])]
+    rep.check("first_consumer_op.original_type == Op.FullyConnected" in dis and "ifm_dtype == DataType.uint8" in dis and len(dis) == 2, "C09-b", "ethosu/vela/weight_compressor.py:_prepare_scale_and_bias",
+              "the float32 product (TFLite's uint8 / FULLY_CONNECTED rule) is selected by ifm dtype uint8 or original_type FullyConnected", f"selected by {dis}")
+    rep.floor("C09-b", 5)
 
     # ---------------------------------------------------------------- c: add/sub siblings
     adv = sc.func("advanced_elementwise_add_sub_scale")
